@@ -212,6 +212,7 @@ func (r *Run) oracleC05() {
 			}
 		}
 	}
+	r.staleSlots(pos)
 	// readers
 	lastIdx := map[string]int{}
 	lastEv := map[string]int{}
@@ -329,4 +330,59 @@ func (r *Run) noLostUpdate() {
 		tried = append(tried, fmt.Sprint(st))
 	}
 	r.fail("C05.lost-update", "after all reports were processed the view has stamps %v (serial %d), but the sources' last reported values are %s and their fresh stack verifies", final.Stamps, final.Serial, strings.Join(tried, " or "))
+}
+
+// staleSlots: a version composed after a report of source s was received must
+// not carry an older report of s. "Composed after" is established through
+// another part of the same version whose report was invoked only after the
+// first one had returned.
+func (r *Run) staleSlots(pos map[uint64]progPos) {
+	opOf := map[uint64]*OpRec{}
+	reporters := map[int]int{}
+	for _, c := range r.sc.Clients {
+		if c.Kind == "reporter" || c.Kind == "blank" {
+			reporters[c.Src]++
+		}
+	}
+	for _, op := range r.ops {
+		if op.PartID != 0 && (op.K == "report" || op.K == "breport" || op.K == "setsource") {
+			opOf[op.PartID] = op
+		}
+	}
+	for _, in := range r.installs[1:] {
+		tau := 0
+		for s := 0; s < 4; s++ {
+			if op := opOf[in.Stamps[s]]; op != nil && op.Invoke > tau {
+				tau = op.Invoke
+			}
+		}
+		for _, op := range r.ops {
+			if op.PartID == 0 || op.Return == 0 || op.Return >= tau || reporters[op.Src] != 1 {
+				continue
+			}
+			switch op.K {
+			case "report":
+				if op.Err != nil {
+					continue
+				}
+			case "breport", "setsource":
+				if op.Err != nil && (isCtxErr(op.Err) || op.Str == "fail") {
+					continue
+				}
+				if op.K == "setsource" && op.Err != nil {
+					continue
+				}
+			default:
+				continue
+			}
+			have := pos[in.Stamps[op.Src]]
+			if in.Stamps[op.Src] == op.PartID {
+				continue
+			}
+			if have.client == "" || have.idx < op.Idx {
+				r.fail("C05.stale-slot", "version serial=%d (step %d) carries report %d of source %d although the later report %d of that source had been received by step %d, before the version was composed (it also carries a report first submitted at step %d)", in.Serial, in.Step, in.Stamps[op.Src], op.Src, op.PartID, op.Return, tau)
+				return
+			}
+		}
+	}
 }
